@@ -324,8 +324,11 @@ def main(argv=None) -> int:
               f"{pp['distinct_nontrivial']} exhaustive={pp['exhaustive']} cpu={pp['cpu_s']}s")
 
     if errors:
-        for e in errors:
-            print(f"HARNESS-ERROR part={e['part']} shard={e['shard']}\n{e['error']}", file=sys.stderr)
+        for e in errors[:2]:
+            print(f"HARNESS-ERROR part={e['part']} shard={e['shard']}\n{e['error'][-3000:]}",
+                  file=sys.stderr)
+        if len(errors) > 2:
+            print(f"HARNESS-ERROR ... and {len(errors) - 2} more shard errors", file=sys.stderr)
     if violations:
         seen = set()
         for part, v, existing in violations:
